@@ -164,6 +164,11 @@ def final_model_scopes(sc):
                 items = L.patch_items(md["patch"], uid, res.text_section.data, bid, func)
                 ls.insert(bid, at, items)
                 expected_contexts.append((uid, bid, at))
+        elif md["op"] == "insert_function":
+            results = by_patch.get(id(sc.mod_patches[mi]), [])
+            eng.check(len(results) == 1, "C07 the body of an inserted function was assembled %d times" % len(results))
+            items = L.patch_items(md["patch"], uid, results[0].text_section.data, None, None)
+            ls.append_function(".text", md["name"], items)
         elif md["op"] == "insert":
             results = by_patch.get(id(sc.mod_patches[mi]), [])
             eng.check(len(results) == 1, "C07 insert_at patch applied %d times" % len(results))
@@ -202,7 +207,10 @@ def h_scopes(eng, spec):
     rewrite.check_bytes(sc, ls)  # each patch exactly once in each designated block, at the designated boundary, in registration order
     # the InsertionContext handed to each invocation names the original block, offset and function
     got = []
+    fn_uids = {md.get("uid", mi) for mi, md in enumerate(spec["mods"]) if md["op"] == "insert_function"}
     for uid, ctx in sc.contexts:
+        if uid in fn_uids:
+            continue  # the body of an inserted function: its context names the function's own stub block
         bid = next((k for k, v in sc.blocks.items() if v is ctx.block), None)
         eng.check(bid is not None, "C07 InsertionContext.block is not an original block of the module")
         got.append((uid, bid, ctx))
@@ -289,6 +297,15 @@ def shapes(tier):
         spec = orphan_layout()
         spec["mods"] = copy.deepcopy(mods)
         out.append(("orphan/%s" % name_of(mods), spec))
+    # a function inserted in the same context: a scope-wide registration walks the blocks that existed when apply() began,
+    # and a scope that excludes the new function by name stays out of it in any case
+    for mods in ([{"op": "insert_function", "name": "newfn", "patch": "func_simple"}, scope("all_blocks", "ENTRY", exclude=["newfn"])],
+                 [scope("all_blocks", "EXIT", exclude=["newfn"]), {"op": "insert_function", "name": "newfn", "patch": "func_body"}],
+                 [{"op": "insert_function", "name": "newfn", "patch": "func_simple"}, scope("all_functions", "ENTRY", fpos="ENTRY")]):
+        spec = rewrite_shapes.text_layout("jcc:s0", annots=False)
+        spec["sections"][0]["blocks"][0]["align"] = 1  # a user alignment entry keeps gtirb_layout from guessing alignments
+        spec["mods"] = copy.deepcopy(mods)
+        out.append(("newfunc/%s" % "+".join(m.get("name") or name_of([m]) for m in mods), spec))
     # literal names are compared as strings, not as patterns
     for mods in ([scope("all_blocks", "ENTRY", exclude=["foo.x"])], [scope("all_functions", "ENTRY", fpos="ENTRY", functions=["foo.x"])],
                  [scope("all_functions", "EXIT", fpos="EXIT", functions=["$s4x"])], [scope("all_blocks", "ENTRY", exclude=["$s4x", "fooax"])],
